@@ -80,6 +80,81 @@ end OFCore
 namespace OFCore.Bld
 
 
+end OFCore.Bld
+namespace OFCore
+open Bld in
+/-- **C12_value_default** (person entity): default elsewhere.  Where the instances with a given id
+declare no non-null value for a variable at a period (whatever the spelling), the array buffered
+for that variable and period — if some other person declared one — holds the variable's default
+at that person's index. -/
+theorem C12_value_default (sys : Sys) (dp : Option String) (kvs : List (DKey × Doc))
+    (ids : List String) (ws : List Write) (h : addPersonEntity sys dp (.obj kvs) = .ok (ids, ws))
+    (id : String) (hid : id ∈ ids) (var : Var) (hvar : sys.var? var.name = some var) (ck : List Char)
+    (hnone : ∀ idk vars, (idk, Doc.obj vars) ∈ kvs → idk.text = id → ∀ vk vd, (vk, vd) ∈ vars →
+      vk.text = var.name → ∀ pvs, variablePairs dp vd = some pvs →
+      ∀ kx ∈ pvs, canonKey kx.1 = .ok ck → kx.2.isNull = true) :
+    ∀ arr, alGet (applyWrites [] ws) (var.name, ck) = some arr →
+      arr.length = kvs.length ∧ arr[ids.idxOf id]? = some var.default := by
+  obtain ⟨hids, wss, hm, rfl⟩ := addPersonEntity_ok h
+  intro arr harr
+  have := entity_value_default (person_instWrites hm) hids id hid var hvar ck hnone arr harr
+  refine ⟨?_, this.2⟩
+  rw [this.1, hids]; simp
+
+open Bld in
+/-- **C12_value_placed_group**: the same placement for the variables of a group kind, with the
+groups appended for the persons left out (repair C12f): the array buffered for
+`(variable, canonical period)` has one slot per group INCLUDING the own-groups, holds the declared
+value at the index of the declaring group, and the default in every own-group. -/
+theorem C12_value_placed_group (sys : Sys) (dp : Option String) (g : GroupKind) (personsIds : List String)
+    (kvs : List (DKey × Doc)) (buf buf' : Buffer) (e : Ent)
+    (h : addGroupEntity sys dp g personsIds (.obj kvs) buf = .ok (e, buf'))
+    (ipre ipost : List (DKey × Doc)) (gk : DKey) (ikvs : List (DKey × Doc))
+    (hkvs : kvs = ipre ++ (gk, .obj ikvs) :: ipost) (hpost : ∀ kv ∈ ipost, kv.1.text ≠ gk.text)
+    (vpre vpost : List (DKey × Doc)) (vk : DKey) (vd : Doc)
+    (hvars : variablesJson g ikvs = vpre ++ (vk, vd) :: vpost) (hvk : ∀ kv ∈ vpost, kv.1.text ≠ vk.text)
+    (var : Var) (hvar : sys.var? vk.text = some var)
+    (pvs ppre ppost : List (DKey × Doc)) (hp : variablePairs dp vd = some pvs)
+    (k : DKey) (x : Doc) (hpvs : pvs = ppre ++ (k, x) :: ppost) (hx : x.isNull = false)
+    (p : Period) (hk : parseKey k = .ok p)
+    (hlater : ∀ kx ∈ ppost, canonKey kx.1 = .ok p.text → kx.2.isNull = true)
+    (hbuf : alGet buf (var.name, p.text) = none) :
+    ∃ val arr, checkSetValue var x = .ok val ∧ alGet buf' (var.name, p.text) = some arr ∧
+      arr.length = e.ids.length ∧
+      arr[(kvs.map (fun kv => kv.1.text)).idxOf gk.text]? = some val ∧
+      ∀ j, kvs.length ≤ j → j < e.ids.length → arr[j]? = some var.default := by
+  obtain ⟨acc, hf, _, _, _, hids, _, hbuf'⟩ := addGroupEntity_ok h
+  obtain ⟨⟨_, _, _⟩, _, ⟨wss, hall, hws⟩, _⟩ := groupLoop_ok kvs _ acc hf
+  simp only [List.nil_append] at hws
+  have hck : canonKey k = .ok p.text := by unfold canonKey; rw [hk]; rfl
+  obtain ⟨hent, val, arr, hval, harr, hlen, hget⟩ :=
+    entity_value_placed (proj := variablesJson g) hall rfl buf ipre ipost gk ikvs hkvs hpost vpre vpost vk vd hvars hvk
+      var hvar pvs ppre ppost hp k x hpvs hx p.text hck hlater (by intro a ha; rw [hbuf] at ha; cases ha)
+  have hglen : (kvs.map (fun kv => kv.1.text)).length = kvs.length := by simp
+  have hidx : (kvs.map (fun kv => kv.1.text)).idxOf gk.text < arr.length := by
+    rw [hlen]; apply List.idxOf_lt_length_of_mem; rw [hkvs]; simp
+  have helen : e.ids.length = kvs.length + acc.toAlloc.length := by rw [hids]; simp
+  by_cases hl : acc.toAlloc = []
+  · rw [if_pos hl] at hbuf'
+    refine ⟨val, arr, hval, by rw [hbuf', hws]; exact harr, ?_, hget, ?_⟩
+    · rw [hlen, helen, hl]; simp
+    · intro j h1 h2; rw [helen, hl] at h2; simp at h2; omega
+  · rw [if_neg hl] at hbuf'
+    have hv : sys.var? var.name = some var := by rw [Sys.var?_name hvar]; exact hvar
+    refine ⟨val, arr ++ List.replicate (e.ids.length - arr.length) var.default, hval, ?_, ?_, ?_, ?_⟩
+    · rw [hbuf', alGet_padBuffer, hws, harr]
+      simp only [Option.map_some, padFn, hv, hent, if_true]
+    · rw [List.length_append, List.length_replicate, hlen, hglen, helen]; omega
+    · rw [List.getElem?_append_left hidx]; exact hget
+    · intro j h1 h2
+      rw [List.getElem?_append_right (by rw [hlen, hglen]; exact h1), List.getElem?_replicate]
+      rw [hlen, hglen]
+      simp only [ite_eq_left_iff, reduceCtorEq, imp_false, Decidable.not_not]
+      omega
+
+end OFCore
+namespace OFCore.Bld
+
 /-! ## entities, memberships, roles -/
 
 /-- the persons listed by the instances of one group kind, in document order -/
